@@ -86,6 +86,18 @@ void maps(const char* mname, const Model& model, T mu_t, T mub_t) {
     const PhQ::Stress<TA> sig = model.Stress(D);
     TA got[6];
     vf::comps(sig, got);
+    {
+      // a temporary argument gives what the named object gives
+      TA t1[6], n2[6], t2[6];
+      vf::comps(model.Stress(PhQ::StrainRate<TA>(D)), t1);
+      vf::comps(model.StrainRate(sig), n2);
+      vf::comps(model.StrainRate(PhQ::Stress<TA>(sig)), t2);
+      for (int i = 0; i < 6; i++)
+        if (!vf::same_bits(got[i], t1[i]) || !vf::same_bits(n2[i], t2[i])) {
+          vf::viol("temporary-argument-differs-from-named|" + tag, "{\"strain_rate\":" + vf::comps_hex(D) + "}");
+          break;
+        }
+    }
     f128 d[6], want[6], sc[6];
     for (int i = 0; i < 6; i++) d[i] = e[i];
     fwd(d, want, sc);
